@@ -57,6 +57,11 @@ def run(ctx):
         if path is None:
             raise RuntimeError('harness %s (%s) does not compile: %s' % (v[1], v[0], err[-1200:]))
         bins[v[0]] = (v[1], path)
+    # the same small program with reference parameters in every corner of the build matrix: a compiler-specific code path
+    # (callbacklist.h has one for compilers that report __GNUC__ < 5, which clang++ does) must not change what listeners get
+    nref = vlib.ref_args_probe(ctx, [('g++', 'c++11', '-O0'), ('g++', 'c++17', '-O2'), ('clang++', 'c++11', '-O2'), ('clang++', 'c++17', '-O0')] +
+                               ([('g++', 'c++14', '-O1'), ('g++', 'c++20', '-O2'), ('clang++', 'c++14', '-O1'), ('clang++', 'c++20', '-O2')] if ctx.tier == 'thorough' else []))
+    ctx.coverage['reference_argument_probe_builds'] = nref
     n = ctx.budget(250, 3000)
     oracle_cl = 'cl' if proof['ok'] else 'cl-spec'
     oracle_q = 'mech' if proof['ok'] else 'spec'
